@@ -1,4 +1,5 @@
 import AffVerif.Props.C03
+import AffVerif.Props.C05
 /-!
 # C11 — pruning is fail-safe when the LP solver misbehaves
 
@@ -60,5 +61,22 @@ theorem C11_no_unsound_infeasible {σ : Type} (tol : α) (base : LPOracle σ α)
     (h : (decideNode tol ⟨faultyOracle base faulty garbage, mirror⟩ s node pst path hyper n).1.isInfeasible = true) :
     ¬ ∃ x, InPath (path ++ [hyper]) x :=
   decideNode_sound tol _ (C11_faults_keep_infeasible_sound base hb faulty garbage) s node pst path hyper n h
+
+/-- faults never poison the caches: under arbitrary solver misbehaviour the swept tree still satisfies the whole cache
+    invariant of C05 (witnesses satisfy their path conditions — a perturbed or far-off "optimal" point is re-checked with
+    `contains` before it is stored —, infeasible marks are right), so a *later* fault-free operation that trusts the
+    caches is sound too -/
+theorem C11_faults_keep_caches {σ : Type} (tol : α) (base : LPOracle σ α) (hb : InfeasibleSound base)
+    (faulty : σ → Aff α → List α → Bool) (garbage : σ → Aff α → List α → LPAnswer α)
+    (mirror : MirrorOracle σ α) (hm : MirrorSound tol mirror) (n m : Nat) (t : PT α) (s : σ)
+    (h : CacheOK tol n m t) :
+    CacheOK tol n m (infeasibleElimination tol ⟨faultyOracle base faulty garbage, mirror⟩ n t s).1 :=
+  C05_elim tol _ (C11_faults_keep_infeasible_sound base hb faulty garbage) hm n m t s h
+
+/-- and the tree stays well formed under faults, for the pruned composition as well (no hypothesis at all) -/
+theorem C11_faults_keep_shape {σ : Type} (tol : α) (lp : LPOracle σ α) (f g : PT α) (s : σ) (c : Nat) (n m p : Nat)
+    (hf : PT.Shaped 2 n m f) (hg : PT.Shaped 2 m p g) :
+    PT.Shaped 2 n p (PT.composeP Schema.compose (isEdgeFeasible tol lp) n [] f g s c).1 :=
+  C04_compose_prune _ f g s c 2 n m p [] hf hg
 
 end AV
